@@ -414,17 +414,27 @@ func (x *c09Client) checkSubscribe(method string, filters []strCase) {
 	m := x.mark()
 	var err error
 	wantQoS := byte(2)
+	// A denial happens before anything can block. A request that should be
+	// denied and is taken on instead would wait for a response that may never
+	// come: it is given a quit which fires long after any denial is through,
+	// so that the verdict names the request instead of a hang.
+	var quit chan struct{}
+	if !valid {
+		quit = make(chan struct{})
+		t := time.AfterFunc(10*time.Second, func() { close(quit) })
+		defer t.Stop()
+	}
 	switch method {
 	case "Subscribe":
-		err = x.cl.Subscribe(nil, fs...)
+		err = x.cl.Subscribe(quit, fs...)
 	case "SubscribeLimitAtMostOnce":
-		err = x.cl.SubscribeLimitAtMostOnce(nil, fs...)
+		err = x.cl.SubscribeLimitAtMostOnce(quit, fs...)
 		wantQoS = 0
 	case "SubscribeLimitAtLeastOnce":
-		err = x.cl.SubscribeLimitAtLeastOnce(nil, fs...)
+		err = x.cl.SubscribeLimitAtLeastOnce(quit, fs...)
 		wantQoS = 1
 	case "Unsubscribe":
-		err = x.cl.Unsubscribe(nil, fs...)
+		err = x.cl.Unsubscribe(quit, fs...)
 	}
 	x.w.WaitIdle(sim.StepTimeout)
 	pk, rest, ops, perr := x.since(m)
